@@ -191,6 +191,13 @@ def block_serialize(self: Obj(CBlock)) -> Bytes:
     ensures(result == enc_block(self, True))
 
 
+@contract('bitcoin.core.serialize:Serializable.serialize', name='block_serialize_params', prop=P)
+def block_serialize_params(self: Obj(CBlock), params: DictOf(include_witness=Bool)) -> Bytes:
+    requires(valid_block(self))
+    option(auto_unfold=False, callable=True)
+    ensures(result == enc_block(self, params['include_witness']))
+
+
 @contract('bitcoin.core.serialize:Serializable.serialize', name='outpoint_serialize', prop=P)
 def outpoint_serialize(self: Obj(OneOf(COutPoint, CMutableOutPoint))) -> Bytes:
     requires(valid_outpoint(self))
